@@ -501,6 +501,11 @@ def r_sortshape(f):
                 adv = [fn["name"] for bi, t, fn in b.calls() if fn and fn.get("trait", "").endswith("Iterator") and "RowsMut" in (fn.get("self_ty") or "") ]
                 # one `next` site (the loop head): every row is visited by the same loop body, none is consumed elsewhere
                 okk = set(adv) <= {"next", "into_iter"} and adv.count("next") == 1 and bool(swaps)
+                if not okk and adv == ["for_each"]:
+                    # `rows_mut().for_each(|r| ..swaps..)`: one traversal of every row, the swaps in the closure
+                    sw_clo = [1 for c in b.closures() for _, _, fn2 in c.calls() if fn2 and fn2["path"] in ("core::ptr::swap", "core::slice::<impl [T]>::swap")]
+                    okk = bool(sw_clo)
+                    swaps = swaps or sw_clo
                 why = "rows_mut() cursor advanced by %s, swaps: %d" % (sorted(set(adv)), len(swaps))
                 if not adv and not swaps:
                     # the loop lives in a crate helper that receives the cursor whole
@@ -530,14 +535,33 @@ def r_sortshape(f):
         dom = b.dominators()
         writes = [bi for bi, t, fn in b.calls() if fn and fn["name"] in ("rows_mut", "swap_rows", "swap_cols", "swap", "index_mut", "col_mut", "cells_mut", "row_pair_mut", "get_unchecked_row_mut", "get_unchecked_mut", "view_mut", "fill")]
         sort_blocks = [bi for bi, _, _ in std]
+        # the precise statement: no block that runs the caller's comparator (the side sort, or a direct call) is reachable
+        # from a block that has written to the array
+        user_blocks = set(sort_blocks) | {bi for bi, t, fn in b.calls() if is_caller_code(fn) and fn and fn["name"] in ("call", "call_mut", "call_once")}
+        for bi, t, fn in b.calls():
+            # closures of this function that call the comparator, handed to some other call (windows().all(..), ..)
+            for a in t["args"]:
+                for x in walk(d.expr(a)):
+                    if x[0] == "agg" and x[1] == "closure" and len(x) > 3:
+                        inner = [c for c in f.fn_bodies if c.kind == "Closure" and (c.id == x[3] or c.id.startswith(x[3] + "::"))]
+                        if any(is_caller_code(fn2) and fn2 and fn2["name"] in ("call", "call_mut", "call_once") for c in inner for _, _, fn2 in c.calls()):
+                            user_blocks.add(bi)
         bad = []
         for w in writes:
-            for sb in sort_blocks:
-                if sb not in dom.get(w, set()) or sb == w:
-                    bad.append((sb, w))
-        # caller code called directly in the core (outside the closures) after the sort
-        direct = [(bi, t) for bi, t, fn in b.calls() if is_caller_code(fn) and fn and fn["name"] in ("call", "call_mut", "call_once")]
-        okk = not bad and not direct and bool(writes)
+            reach_w = b.reachable(w)
+            for ub in user_blocks:
+                if ub in reach_w and ub != w:
+                    bad.append((ub, w))
+        direct = []
+        okk = not bad and bool(writes) and bool(sort_blocks)
+        # s6: the permutation that is applied is the side sort's: every array write is dominated by the side sort (a path that
+        # rearranges the array without having sorted - a "fast path" - is an algorithm of its own that nothing here verifies)
+        n += 1
+        undominated = [w for w in writes if not any(sb in dom.get(w, set()) and sb != w for sb in sort_blocks)]
+        ok6 = bool(writes) and not undominated
+        R.inst(b.ident, "s6 the side sort dominates all %d array writes (no rearrangement bypasses it)" % len(writes), ok6)
+        if not ok6:
+            R.fail(b.ident, "s6", "%s writes to the array on a path that has not gone through the side sort: that path applies a permutation of its own (stability / order unverified)" % b.ident, b.where())
         R.inst(b.ident, "s5 comparator runs only inside the side sort, which dominates all %d array writes" % len(writes), okk)
         if not okk:
             R.fail(b.ident, "s5", "%s can run the caller's comparator after it has started permuting the array (panic would leave a half-sorted array)" % b.ident, b.where())
